@@ -18,7 +18,7 @@ LEVEL_NOTE = "Trusted: the checker's Gaussian log-density formula and the public
 TECHNIQUE = "runtime monitoring: recomputation oracle from public pieces + call-counting monitor (no forward calculation when the prior excludes the point)"
 RULE = ("post: model kinds {alpha, exact} x optics source {model, data, mixed} x noise source {model scalar, model prior, data, "
         "none+uniform, none+gaussian (must raise), per-channel data} x vector kinds {inside, on lower/upper bound, outside, "
-        "negative radius, overlap constraint} x data {image, subset, pixels=k}; shapes: spheroid / cylinder sizes negative inside the support, overlap constraints on layered spheres; per-channel model noise as dict (either key order) or list. non-trivial = lnposterior finite or -inf "
+        "negative radius, overlap constraint} x data {image, subset, pixels=k}; shapes: spheroid / cylinder sizes negative inside the support, overlap constraints on layered spheres; per-channel model noise as dict (either key order) or list; per-channel (dictionary) radii / thicknesses negative in one channel. non-trivial = lnposterior finite or -inf "
         "decided with >=1 prior; distinct by rounded case JSON")
 ASSUMPTIONS = ["the log-likelihood normalisation is the documented -N/2 log(2 pi) - N mean(log sigma) - chi^2/2"]
 MIN_NONTRIVIAL = 20
